@@ -175,22 +175,31 @@ class CompilerProcess:
                 return min(70000, b)
             return 0
 
+        maxdepth = [1]
+
         def walk(scope, depth=0):
-            if id(scope) in seen or depth > 64:
-                return
-            seen.add(id(scope))
-            for m in getattr(scope, "members", {}).values():
-                tot[1] += 1
-                if type(m).__name__ == "Message":
-                    tot[0] += bits(m)
-                if hasattr(m, "members"):
-                    walk(m, depth + 1)
+            # iterative: the harness must not hit the recursion limit on deeply nested input
+            stack = [(scope, 0)]
+            while stack:
+                sc, d = stack.pop()
+                if id(sc) in seen:
+                    continue
+                seen.add(id(sc))
+                maxdepth[0] = max(maxdepth[0], d + 1)
+                for m in getattr(sc, "members", {}).values():
+                    tot[1] += 1
+                    if type(m).__name__ == "Message" and d < 64:
+                        tot[0] += bits(m)
+                    if hasattr(m, "members"):
+                        stack.append((m, d + 1))
 
         try:
             walk(proto)
         except Exception:
             tot = [65535 * 4, 1000]
-        return min(MAX_BUDGET, 1_000_000 + 1_500 * tot[0] + 20_000 * tot[1])
+        # name formatting walks the scope stack of every definition: cost grows with
+        # definitions x nesting depth (measured: 12.8 M steps for 480 nested messages)
+        return min(MAX_BUDGET, 1_000_000 + 1_500 * tot[0] + 20_000 * tot[1] + 120 * tot[1] * maxdepth[0])
 
     # ---------------------------------------------------------------- running
     def classify(self, exc) -> str:
